@@ -43,6 +43,10 @@ CHECKS = {
  'C08': dict(engine='A', technique='bounded model checking (cbmc/SAT) of the real container operations sequentialised by the translator (A-seq): each thread body is a step machine yielding before every atomic instruction, the schedule is a nondeterministic input, pre-state an arbitrary valid container state',
    text='All interleavings of the atomic operations of two (thorough: three) concurrent real operations - pool get/get, get/free, queue get/get, get/try_get, add/get, lock_dependency pairs, atomic counter/max/lock pairs - from arbitrary valid states at small size, plus sequential inductive twins with the full state space; the solver covers every schedule within the step bound.',
    note='Bounds: 2-3 threads, one operation each, pools of 3 slots, queues of <=1 entry in the two-thread races (<=3 in the sequential twins), <= 12-30 scheduled steps (longer spins assumed away). Sequentially consistent atomics; plain accesses grouped with the preceding atomic step. Outside: >3 threads, liveness, relaxed memory.', ref='DESIGN.md section 5 C08'),
+
+ 'C07': dict(engine='A', technique='bounded model checking (cbmc/SAT) of the real task-graph construction (make_hydro_tasks, set_dependencies, reset_hydro_tasks) on sub-grids wired by the real create_subgrid, probe task / sub-grid symbolic',
+   text='Static well-formedness of the constructed hydro task graph for every listed layout and all 8 periodicity combinations: children valid and layered (acyclic), unfinished-parent counters == in-degree (so a task is released exactly when all parents finished), start tasks == gradient sweeps, lock set == sub-grids touched with distinct ordered locks, every face covered exactly once per phase. The dynamic clauses (exactly once, mutual exclusion, termination under all interleavings) rest on these facts plus the C08 primitives; that composition is a paper argument, not machine-checked.',
+   note='Layouts: quick 1x1x1, 2x1x1, 1x2x1, 1x1x2 (all 8 flag combinations) and 2x2x2 (none/all periodic); thorough adds 8 more layouts up to 3x3x1. Sub-grid constructor stubbed (geometry ints, lock, task slots). Outside: the worker loop under all interleavings for 3..16 threads, larger layouts, liveness.', ref='DESIGN.md section 5 C07'),
 }
 NA = {
 }
